@@ -600,13 +600,27 @@ impl<'p, C: SimCfg> World<'p, C> {
         let known = from < self.nodes.len() && self.nodes[to].watch.contains_key(&inj.from_addr);
         if known {
             let synced = self.nodes[to].watch.get(&inj.from_addr).is_some_and(|w| w.running);
-            if matches!(&inj.payload, Payload::Msg { magic: MagicSel::Wrong, .. }) && !synced {
+            // (handshake packets and keep-alives are the exception: whatever magic they carry, before
+            // the handshake is through they may cost a reply but must not decide anything - a peer
+            // that was restarted while connecting sends exactly such packets)
+            // (a request draws a reply, and in a run with a death every extra packet shifts the timing
+            // that the cut-off frame depends on: there only the kinds that draw none)
+            let has_death = self.plan.nodes.iter().any(|n| n.tick.stop_us.is_some());
+            let handshake_kind = match &inj.payload {
+                Payload::Msg { body: MBody::SyncReply { .. } | MBody::KeepAlive, .. } => true,
+                Payload::Msg { body: MBody::SyncRequest { .. }, .. } => !has_death,
+                _ => false,
+            };
+            if matches!(&inj.payload, Payload::Msg { magic: MagicSel::Wrong, .. }) && !synced && !handshake_kind {
                 // before the handshake with that address completes the endpoint cannot know the
                 // right magic: out of the statement's scope
                 *self.probes.extra.entry("forged_skipped_before_handshake").or_insert(0) += 1;
                 return;
             }
             *self.probes.extra.entry("forged_from_known_address").or_insert(0) += 1;
+            if !synced && matches!(&inj.payload, Payload::Msg { magic: MagicSel::Wrong, .. }) {
+                *self.probes.extra.entry("forged_foreign_magic_during_handshake").or_insert(0) += 1;
+            }
         } else {
             *self.probes.extra.entry("forged_from_unknown_address").or_insert(0) += 1;
         }
